@@ -144,6 +144,52 @@ func (g *gen) errorRich() {
 	}
 }
 
+// repeated emits values that one compilation validates more than once: a class applied to
+// several shapes, a base board inherited by scenarios and steps, a glob applied to several
+// targets. Some of the values are valid, some are not (malformed Markdown, out-of-domain
+// attributes), so that anything a compilation remembers about a value it has already seen
+// (a cache, a de-duplication of errors) shows when the same script is compiled again or
+// next to another script that shares the value.
+func (g *gen) repeated() {
+	tp := g.tp
+	mds := []string{"plain *markdown* text", "line one<br>", "# title <br> x", "<span>ok</span>", "<b>unclosed", "a & b", "<img src=x>"}
+	vals := []string{"style.opacity: 7", "style.opacity: 0.4", "shape: no_such_shape", "shape: hexagon", "style.stroke-width: 99", "style.stroke-width: 2",
+		"near: nowhere-at-all", "width: -4", "width: 120", "style.font-size: 3", "style.fill-pattern: plaid", "style.text-transform: shouty", "link: https://example.com", "style.border-radius: 5"}
+	md := func() string { return mds[tp.Draw(len(mds), "rep.md")] }
+	g.sb.WriteString("classes: {\n")
+	nc := 1 + tp.Draw(3, "rep.nclasses")
+	for i := 0; i < nc; i++ {
+		fmt.Fprintf(&g.sb, "  r%d: {\n", i)
+		switch tp.Draw(4, "rep.kind") {
+		case 0:
+			fmt.Fprintf(&g.sb, "    label: |md\n      %s\n    |\n", md())
+		case 1:
+			fmt.Fprintf(&g.sb, "    tooltip: |md %s |\n", md())
+		case 2:
+			fmt.Fprintf(&g.sb, "    %s\n", vals[tp.Draw(len(vals), "rep.val")])
+		case 3:
+			fmt.Fprintf(&g.sb, "    label: |md\n      %s\n    |\n    %s\n", md(), vals[tp.Draw(len(vals), "rep.val")])
+		}
+		g.sb.WriteString("  }\n")
+	}
+	g.sb.WriteString("}\n")
+	users := 2 + tp.Draw(3, "rep.users")
+	for i := 0; i < users; i++ {
+		fmt.Fprintf(&g.sb, "ru%d.class: r%d\n", i, tp.Draw(nc, "rep.which"))
+	}
+	if tp.Chance(1, 2, "rep.base") {
+		fmt.Fprintf(&g.sb, "rbase: |md\n  %s\n|\nrbase2: {\n  %s\n}\n", md(), vals[tp.Draw(len(vals), "rep.val")])
+		kind := []string{"scenarios", "steps"}[tp.Draw(2, "rep.boardkind")]
+		fmt.Fprintf(&g.sb, "%s: {\n  one: {\n    rq\n  }\n  two: {\n    rr\n    rbase2.style.opacity: 0.5\n  }\n  three: {\n    rs: |md\n      %s\n    |\n  }\n}\n", kind, md())
+	}
+	if tp.Chance(1, 2, "rep.glob") {
+		fmt.Fprintf(&g.sb, "ru*.%s\n", vals[tp.Draw(len(vals), "rep.val")])
+		if tp.Chance(1, 2, "rep.globmd") {
+			fmt.Fprintf(&g.sb, "ru*.tooltip: |md %s |\n", md())
+		}
+	}
+}
+
 // Script returns a generated D2 script and the files it imports (nil when none).
 func Script(tp *tape.Tape) (string, map[string]string) {
 	g := &gen{tp: tp}
@@ -198,6 +244,9 @@ func Script(tp *tape.Tape) (string, map[string]string) {
 			}
 			g.sb.WriteString("}\n")
 		}
+	}
+	if tp.Chance(1, 4, "gen.repeated") {
+		g.repeated()
 	}
 	if tp.Chance(1, 4, "gen.errors") {
 		g.errorRich()
